@@ -363,8 +363,17 @@ fn shape_variants(e: &mut Emitter, r: &mut Rng, o: &Outer, inst: &Instance, full
 fn expect_reject(e: &mut Emitter, o: &Outer, inst: &Instance, what: &str, p: &SProof, pis_degree_bits: usize) {
     e.stage(&format!("impl: in-circuit verification of a STARK proof presentation that must be rejected ({what}) of {} in the {}", inst.what, o.desc));
     let (circ, stage) = circuit_verdict(o, p, pis_degree_bits);
+    // A trace whose constraint polynomials vanish identically (e.g. all-constant columns) has a zero
+    // quotient: `vanishing(ζ) = Z_H(ζ)·t(ζ)` is then `0 = Z_H(ζ)·0` whatever degree Z_H is computed for,
+    // so a wrong degree parameter cannot be noticed by the quotient check. Such acceptances are
+    // legitimate (a false alarm met in the thorough tier); they are counted, not reported.
+    let degenerate = p.proof.openings.quotient_polys.as_ref().map_or(true, |q| q.iter().all(|x| *x == <FE as Field>::ZERO));
     if circ == "ACCEPT" {
-        e.oracle_failures.push(format!("in-circuit STARK verifier ACCEPTS `{what}` (pis_degree_bits={pis_degree_bits}) of {} presented to the {}", inst.what, o.desc));
+        if degenerate && what.starts_with("wrong pis_degree_bits (fixed)") {
+            e.count("degenerate instance (zero quotient): wrong pis_degree_bits accepted in fixed mode, legitimately");
+        } else {
+            e.oracle_failures.push(format!("in-circuit STARK verifier ACCEPTS `{what}` (pis_degree_bits={pis_degree_bits}) of {} presented to the {}", inst.what, o.desc));
+        }
     }
     e.count(&format!("variant {}: expected REJECT / circuit {}", class_name(what), circ));
     e.count(&format!("circuit outcome at {stage}"));
